@@ -133,6 +133,16 @@ def generate(rng, tier):
                     s = ",".join(map(str, syms))
                     cases.append(Case(f"syms_rt {level} {method} 1 {s} -", oracle=rt_oracle(syms, 0), flavour="asan", tags=(f"kind:{kind}",)))
                     cases.append(Case(f"syms_enc {level} {method} 1 {s}", tags=(f"kind:{kind}",)))
+    if thorough:
+        # every value below 2^18 present (2^18 distinct symbols), 20 times each: the automatic selection prefers
+        # the raw scheme (its estimate wins from about 16*2^18 values on) and EncodeRawSymbols then reports failure
+        # (unique-symbols bit length 19 > 18) although the tagged scheme codes the input -- the one `return false`
+        # of the automatic mode (DracoProps.C08 `symbols_failure_characterised`); model and code must agree
+        big = list(range(1 << 18)) * 20
+        rng.shuffle(big)
+        s = ",".join(map(str, big))
+        cases.append(Case(f"syms_rt - - 1 {s} -", oracle=rt_oracle(big, 0), tags=("auto_raw_2^18_unique",)))
+        cases.append(Case(f"syms_rt - 0 1 {s} -", oracle=rt_oracle(big, 0), tags=("auto_raw_2^18_unique",)))
     # decoder on arbitrary bytes
     for _ in range(2000 if thorough else 400):
         b = bytearray(gen.rand_bytes(rng, rng.choice((0, 1, 2, 3, 8, 30, 100))))
